@@ -189,6 +189,18 @@ func GenOAFile(r *R, idx int, o OAOpts) (*ir.Request, []string) {
 				no++
 				path += "/{" + fn + "}"
 			}
+			if strings.Contains(svc.BasePath, "{tenant}") && (verb == "POST" || verb == "PUT" || verb == "PATCH") && o.on("base_var_field", r, 1, 2) {
+				// a request field spelled like the BASE-PATH variable and of a kind no path variable could bind (message,
+				// repeated, enum-like): the variable is a path parameter of the operation all the same
+				bf := &ir.Field{Name: "tenant", Number: no, Kind: "message", TypeName: P + "OaLeaf"}
+				if reqNo%2 == 0 {
+					bf = &ir.Field{Name: "tenant", Number: no, Kind: "string", Card: "repeated"}
+				}
+				used["tenant"] = true
+				in.Fields = append(in.Fields, bf)
+				no++
+				tag("base_var_field")
+			}
 			if nv >= 2 && o.on("two_vars_in_segment", r, 1, 10) {
 				// `/compare/{base}...{head}`: both are variables of the template
 				path = fmt.Sprintf("/m%d/{%s}...{%s}", reqNo, in.Fields[0].Name, in.Fields[1].Name)
